@@ -997,11 +997,16 @@ def run(tier, seed, model_ok=True):
                         "real_rank0": sr.outs.get(0, [])[:4]}, cap=3)
     # keep the shortest script per signature first (the replay the report quotes)
     res.oracle_failures.sort(key=lambda f: (0 if "total<ranks" in f["signature"] else 1, len((f.get("case") or {}).get("script", ""))))
+    from lib import swaprace
+    swaprace.run(res, "bag", tier, seed)     # swap() / clear() followed at once by inserts, no barrier
     return res
 
 
 def replay(data):
     """re-run the recorded case; True = the failure did not reproduce"""
+    if (data.get("case") or {}).get("harness") == "swaprace":
+        from lib import swaprace
+        return swaprace.replay(data)
     case = data.get("case") or {}
     binary, err = C.build_harness("arrbag")
     if binary is None or "script" not in case:
